@@ -52,6 +52,24 @@ fn zst_case<T: Flat + ?Sized + 'static>(acc: &mut PropAcc, name: &'static str, l
     }
 }
 
+fn zst_len1_case(acc: &mut PropAcc, limit: Duration) {
+    let name = "FlatVec<[();usize::MAX],u8>";
+    acc.evaluations += 1;
+    acc.distinct.insert(format!("zst_len:{}", name));
+    report::journal(format!("probe zst_len {}", name).as_bytes());
+    let r = timed(limit, move || {
+        let b = Aligned([1u8; 64]);
+        match catch(|| FlatVec::<[(); usize::MAX], u8>::validate(&b.0[..1]).map(|_| ())) {
+            Ok(r) => format!("{:?}", r),
+            Err(p) => format!("panic: {}", p),
+        }
+    });
+    report::journal_idle();
+    if r.is_none() {
+        acc.violate(format!("decode/hang/zst_len/{}", name), format!("{}: validate of the single byte 01 did not return within {:?} (the element, a zero-sized array, is walked)", name, limit), json!({"engine": "probe", "family": "zst_len", "type": name}));
+    }
+}
+
 fn u128_case<T: Flat + ?Sized + 'static>(acc: &mut PropAcc, name: &'static str) {
     for fill in [0xFFu8, 0xFE] {
         acc.evaluations += 1;
@@ -91,6 +109,13 @@ fn main() {
     }
     if want("zst_len", "FlatVec<[u16;0],u64>") {
         zst_case::<FlatVec<[u16; 0], u64>>(&mut acc, "FlatVec<[u16;0],u64>", 8, limit);
+    }
+    if want("zst_len", "[();usize::MAX]") {
+        zst_case::<[(); usize::MAX]>(&mut acc, "[();usize::MAX]", 0, limit);
+    }
+    if want("zst_len", "FlatVec<[();usize::MAX],u8>") {
+        // length 1: the one (zero-sized) element is itself an array of usize::MAX zero-sized elements
+        zst_len1_case(&mut acc, limit);
     }
     if want("u128_length", "FlatVec<u8,u128>") {
         u128_case::<FlatVec<u8, u128>>(&mut acc, "FlatVec<u8,u128>");
